@@ -1567,6 +1567,17 @@ var shapeTargets = []shapeTarget{
 	{"internal/transfer", "RecvManifestMultiStream", "", "assign:registered", "filewait_ready_pred"},
 	{"internal/transfer", "RecvManifestMultiStream", "", "args:fileReady.signal", "filewait_signal_args"},
 	{"internal/transfer", "RecvManifestMultiStream", "", "seq:stateByKey[key] = state|fileReady.signal(key)|state := stateByKey[fileKey]|verifhook.Point(\"recv.reader.before_wait\", fileKey)", "filewait_order"},
+	// resume negotiation (Model/Resume): the sender's plan and the receiver's report
+	{"internal/transfer", "SendManifestMultiStream", "", "assign:forceSendFrom", "plan_force_assigns"},
+	{"internal/transfer", "SendManifestMultiStream", "", "if-cond-has:forceSendFrom", "plan_force_ifs"},
+	{"internal/transfer", "SendManifestMultiStream", "", "assign:verifyNeeded", "plan_verify_needed"},
+	{"internal/transfer", "SendManifestMultiStream", "", "assign:allComplete", "plan_all_complete"},
+	{"internal/transfer", "SendManifestMultiStream", "", "assign:hashUnknown", "plan_hash_unknown"},
+	{"internal/transfer", "SendManifestMultiStream", "", "assign:minForce", "plan_min_force"},
+	{"internal/transfer", "SendManifestMultiStream", "", "assign:state.resendChunk", "plan_resend_chunk"},
+	{"internal/transfer", "RecvManifestMultiStream", "", "assign:info.LastVerifiedChunk", "report_last_verified"},
+	{"internal/transfer", "RecvManifestMultiStream", "", "assign:info.LastVerifiedHash", "report_hash"},
+	{"internal/transfer", "RecvManifestMultiStream", "", "assign:info.Bitmap", "report_bitmap"},
 	// Sidecar.Flush: mutex around marshal, temp write and rename (Model/Flushers)
 	{"internal/transfer", "Flush", "Sidecar", "body-head:2", "sidecar_flush_head"},
 	{"internal/transfer", "Flush", "Sidecar", "seq:temp := s.Path + \".tmp\"|verifhook.Point(\"sidecar.between_tmp_and_rename\")|verifhook.Point(\"sidecar.after_rename\")|s.dirty = false", "sidecar_flush_io"},
